@@ -59,3 +59,14 @@ Theorem C15_cut_inner_keeps_wf2 `{Sig} : forall E n ks e nd1 nd2 nd3 nd4 nd5 nd6
   run E (cut_inner_edge n ks e nd1 nd2 nd3 nd4 nd5 nd6) c w cnt = (Done tt, w', cnt') -> wf2 n w'.
 Proof. intros E n ks e nd1 nd2 nd3 nd4 nd5 nd6 rd c w cnt w' cnt'. exact (cut_inner_edge_wf E n w ks e nd1 nd2 nd3 nd4 nd5 nd6 rd c cnt w' cnt'). Qed.
 Print Assumptions C15_cut_inner_keeps_wf2.
+
+(** Tie to the source: [swap_edge], [cut_outer_edge], [cut_inner_edge] -- the programs of the three theorems above --
+    are, verbatim, the programs that tools/tr_kern.py regenerates from remeshing/swap.rs and remeshing/cut.rs on every
+    run (Map2/GenKern.v); an edit of those kernels changes the generated file and this theorem stops compiling. *)
+From HC Require Import Map2.GenKern Map2.GenKernLaws.
+Theorem C15_kernels_are_the_source `{Sig} :
+  (forall n ks e nd1 nd2 nd3, gen_cut_outer_edge n ks e nd1 nd2 nd3 = cut_outer_edge n ks e nd1 nd2 nd3) /\
+  (forall n ks e nd1 nd2 nd3 nd4 nd5 nd6, gen_cut_inner_edge n ks e nd1 nd2 nd3 nd4 nd5 nd6 = cut_inner_edge n ks e nd1 nd2 nd3 nd4 nd5 nd6) /\
+  (forall n ks e, gen_swap_edge n ks e = swap_edge n ks e).
+Proof. exact kernels_are_the_source. Qed.
+Print Assumptions C15_kernels_are_the_source.
